@@ -90,6 +90,36 @@ func runRace(cfg *Cfg) {
 	defer out.Close()
 	out.res.Rule = "N goroutines perform the read-only operation set (Size, Marshal det/non-det, Has/Get of every field, WhichOneof, Range, Equal, Clone-from, JSON marshal) in different orders on one shared message of every generated type (incl. types embedding Any/Timestamp/Duration/FieldMask and messages just decoded from the wire), under the race detector; each goroutine's observations must equal the sequential ones"
 	targets := loadTargets()
+	// cold start: the FIRST codec / reflection calls of every message type in this process happen in several
+	// unsynchronised goroutines at once (each on its own fresh message): anything initialised lazily per type
+	// on a read path without synchronisation races here and nowhere else
+	{
+		var wg sync.WaitGroup
+		for _, t := range targets {
+			for g := 0; g < 4; g++ {
+				wg.Add(1)
+				go func(t *Target, g int) {
+					defer wg.Done()
+					guard(func() {
+						m := t.Info.Proto.ProtoReflect().New().Interface()
+						switch g % 4 {
+						case 0:
+							_ = proto.Size(m)
+						case 1:
+							_, _ = proto.Marshal(m)
+						case 2:
+							_ = proto.Unmarshal(nil, m)
+						default:
+							m.ProtoReflect().Range(func(protoreflect.FieldDescriptor, protoreflect.Value) bool { return true })
+							_ = proto.Size(m)
+						}
+					})
+				}(t, g)
+			}
+		}
+		wg.Wait()
+		out.res.Stats["cold_start_types"] = len(targets)
+	}
 	r := vschema.NewRand(cfg.Seed + 11)
 	vals := 6
 	gor := 8
